@@ -1678,7 +1678,7 @@ def check_optional_init_style(ctx, tu):
                 ctx.ok(R, inst, 'direct initialisation' if style == 'call' else 'default initialisation', tu.loc(x), nontrivial=False)
             else:
                 ctx.undecided(R, inst, 'initialisation style `%s` not recognised' % style, tu.loc(x))
-    ctx.floor(R, n, 3, 'placement-new sites in Optional (constructors, emplace, default_construct_storage_if_needed)')
+    ctx.floor(R, n, 1, 'placement-new sites in Optional (at least emplace; 3 on the pinned tree)')
 
 
 def run(ctx):
